@@ -58,6 +58,19 @@ class FakeNode:
         return f"FakeNode({self.__dict__.get('type', self.__dict__.get('_kind', '?'))})"
 
 
+class AssocDict(dict):
+    """A real dict (what the function under proof receives) that ALSO answers the association-list view contract text
+    uses for an `Assoc` value: d[0] is the first (key, value) pair, d[1:] the remaining entries, in insertion order.
+    Keys of an Assoc are strings, so integer / slice subscripts are unambiguous."""
+
+    def __getitem__(self, k):
+        if isinstance(k, int) and not isinstance(k, bool):
+            return list(self.items())[k]
+        if isinstance(k, slice):
+            return AssocDict(list(self.items())[k])
+        return dict.__getitem__(self, k)
+
+
 def build_value(ty: Ty, mv, memo=None):
     """Model value (from verify.model_value) -> real Python object of the declared type."""
     if memo is None:
@@ -108,7 +121,7 @@ def build_value(ty: Ty, mv, memo=None):
         return _types.SimpleNamespace(**fields)
     from .ty import Assoc
     if isinstance(ty, Assoc):
-        return {k: build_value(ty.valty, v, memo) for k, v in (mv or [])}
+        return AssocDict((k, build_value(ty.valty, v, memo)) for k, v in (mv or []))
     if isinstance(ty, SeqOf):
         return [build_value(ty.elem, x, memo) for x in (mv or [])]
     if isinstance(ty, TupleOf):
